@@ -387,7 +387,12 @@ class SolverActor:
                     elif self.spec.get("start_point") is not None:
                         # the documented startPoint parameter (the method ignores it at this commit)
                         kw["startPoint"] = Point(np.array(self.spec["start_point"], dtype=np.double), [])
-                    if self.spec.get("params_set") == "attr":
+                    if self.spec.get("params_set") == "positional" and "startPoint" not in kw:
+                        # the first four parameters written positionally: SolverParameters(eps, r, itersLimit, evolventDensity)
+                        self.parameters = SolverParameters(kw["eps"], kw["r"], kw["itersLimit"], kw["evolventDensity"],
+                                                           refineSolution=kw["refineSolution"])
+                        w.fired["parameters_given_positionally"] += 1
+                    elif self.spec.get("params_set") == "attr":
                         # the user builds a default object and then assigns its public fields
                         self.parameters = SolverParameters()
                         for k2, v2 in kw.items():
